@@ -12,21 +12,25 @@ Variable has_prot : Z -> bool.
 Variable mf : Z -> V.
 Variable sf : Z -> V.
 Variable pre : bool.
+Variable ftag : Z -> Z.
+Variable sc0 : Z -> option (Z * V).
 Variable reqs : Z -> req.
+Hypothesis sc0_ok : forall k g x, sc0 k = Some (g, x) -> g = ftag k -> x = sf k.
 
 Notation full := (full V base over1 over2 has_prot).
-Notation run := (run V base over1 over2 has_prot mf sf).
-Notation init := (init V base pre).
+Notation run := (run V base over1 over2 has_prot mf sf ftag).
+Notation init := (init V base pre sc0).
 Notation alone := (alone V base over1 over2 has_prot mf sf).
-Notation inv := (inv V base over1 over2 has_prot mf sf pre reqs).
-Notation tinv := (tinv V base over1 over2 has_prot mf sf pre reqs).
-Notation reachable_inv := (reachable_inv V base over1 over2 has_prot mf sf pre reqs).
+Notation inv := (inv V base over1 over2 has_prot mf sf pre ftag reqs).
+Notation tinv := (tinv V base over1 over2 has_prot mf sf pre ftag reqs).
+Notation reachable_inv := (reachable_inv V base over1 over2 has_prot mf sf pre ftag sc0 reqs sc0_ok).
 
 Definition reach (s : state V) : Prop :=
   exists sched, run Repaired reqs sched (init Repaired reqs) = Some s.
 
 Lemma reach_inv : forall s, reach s -> inv s.
 Proof. intros s [sched H]. eapply reachable_inv; eauto. Qed.
+(* (reachable_inv carries the hypothesis on the start-up content of the sort cache) *)
 
 Lemma built_once : forall s, reach s -> b_gen s <= 1.
 Proof. intros s H. destruct (reach_inv s H) as [(G & _) _]. lia. Qed.
@@ -77,7 +81,7 @@ Proof.
 Qed.
 
 Lemma sort_transparent : forall s, reach s ->
-  (forall k x, scache s k = Some x -> x = sf k) /\
+  (forall k g x, scache s k = Some (g, x) -> g = ftag k -> x = sf k) /\
   (forall t ks, reqs t = RSort ks -> tpc (thr s t) = Done -> out (thr s t) = Some (PVals (map sf ks))).
 Proof.
   intros s H. split.
@@ -119,7 +123,7 @@ Definition linv (s : state V) : Prop :=
   (forall w, vlock s = Some w -> in_vcrit (tpc (thr s w)) = true) /\
   (forall w, mlock s = Some w -> in_mcrit (tpc (thr s w)) = true).
 
-Notation step := (step V base over1 over2 has_prot mf sf).
+Notation step := (step V base over1 over2 has_prot mf sf ftag).
 
 Ltac lock_case u :=
   let w := fresh "w" in let Hw := fresh "Hw" in let E := fresh "E" in
@@ -166,7 +170,7 @@ Proof.
       eapply IH; [| |exact H].
       + eapply step_inv; eauto.
       + eapply linv_step; eauto. }
-  intros s [sched H]. eapply G; [apply inv_init|apply linv_init|exact H].
+  intros s [sched H]. eapply G; [apply inv_init; exact sc0_ok|apply linv_init|exact H].
 Qed.
 
 (** the system never gets stuck: while some request is unfinished, some thread can move *)
